@@ -4,7 +4,7 @@ and group the rejections by signature (command, expected, observed) to triage di
 usage: explore.py <GenClass> [histories] [commands] [seed]"""
 import sys, os, json, re, random, shutil, concurrent.futures as cf
 sys.path.insert(0, '/verif/lib')
-import runner, workloads, tlc
+import runner, workloads, tlc, gens_streams
 from session import Session, Trace, ServerDied
 from server import Server
 
@@ -14,14 +14,15 @@ def main():
     M = int(sys.argv[3]) if len(sys.argv) > 3 else 120
     seed = int(sys.argv[4]) if len(sys.argv) > 4 else 1
     runner.build_harness()
-    wd = '/verif/out/explore'
+    wd = os.environ.get('VERIF_EXPLORE_DIR', '/verif/out/explore')      # separate dirs let several people explore at once
     shutil.rmtree(wd, ignore_errors=True); os.makedirs(wd)
     devs = set(f['deviation'] for f in runner.load_findings().get('open', []) if f.get('deviation'))
+    devs |= set(d for d in os.environ.get('VERIF_EXTRA_DEVS', '').split(',') if d)
     srv = Server(wd + '/srv').start()
     rnd = random.Random(seed)
     traces = []
     for h in range(H):
-        g = getattr(workloads, gname)(rnd)
+        g = (getattr(workloads, gname, None) or getattr(gens_streams, gname))(rnd)
         tr = Trace('%s/t%d.ndjson' % (wd, h))
         s = Session(srv, tr)
         try:
